@@ -803,3 +803,22 @@ def mutable_defaults_mutated(fn_node):
                 out.append((p, n))
                 break
     return out
+
+
+def except_names_read_outside(fn_node):
+    """names bound by `except ... as name` that are read after their handler (Python unbinds the name when the handler ends: the read raises
+    UnboundLocalError / NameError unless something else bound the name). Returns [(handler, read node)]"""
+    out = []
+    for h in [x for x in ast.walk(fn_node) if isinstance(x, ast.ExceptHandler) and x.name]:
+        inside = {id(y) for y in ast.walk(h)}
+        other_stores = [y for y in ast.walk(fn_node) if isinstance(y, ast.Name) and y.id == h.name and isinstance(y.ctx, ast.Store)] + \
+                       [y for y in ast.walk(fn_node) if isinstance(y, ast.arg) and y.arg == h.name]
+        same_name_handlers = [x for x in ast.walk(fn_node) if isinstance(x, ast.ExceptHandler) and x.name == h.name and x is not h]
+        covered = {id(y) for x in same_name_handlers for y in ast.walk(x)}
+        if other_stores:
+            continue
+        for y in ast.walk(fn_node):
+            if isinstance(y, ast.Name) and y.id == h.name and isinstance(y.ctx, ast.Load) and id(y) not in inside and id(y) not in covered:
+                out.append((h, y))
+                break
+    return out
